@@ -13,7 +13,8 @@ def main():
     if "--tier" in sys.argv:
         tier = sys.argv[sys.argv.index("--tier") + 1]
         args = [a for a in args if a != tier]
-    use_wt = "--wt" in sys.argv       # evaluate in a scratch worktree through the experiment override VERIF_REPO (several can run at once)
+    use_wt = "--wt" in sys.argv
+    no_write = "--no-write" in sys.argv      # robustness sweeps (other VERIF_SEED values): report only       # evaluate in a scratch worktree through the experiment override VERIF_REPO (several can run at once)
     d = os.path.abspath(args[0])
     pids = args[1:] or [c["property_id"] for c in json.load(open(os.path.join(HERE, "MANIFEST.json")))["checks"]]
     patch = os.path.join(d, "patch.diff")
@@ -24,6 +25,7 @@ def main():
         subprocess.run(["git", "-C", "/repo", "worktree", "remove", "--force", target], capture_output=True)
         subprocess.run(["git", "-C", "/repo", "worktree", "add", "-q", "--detach", target, "HEAD"], check=True)
         env["VERIF_REPO"] = target
+        env["VERIF_OUT"] = target + "_out"
     st = subprocess.run(["git", "-C", target, "status", "--porcelain", "--untracked-files=no"], capture_output=True, text=True).stdout.strip()
     if st:
         print("refusing: the tree has local modifications:\n" + st)
@@ -41,14 +43,25 @@ def main():
             res[pid] = {"exit": p.returncode, "violation": any(l.startswith("VIOLATION") for l in lines),
                         "no_failing_input": any("no-failing-input-found" in l for l in lines), "lines": [l[:300] for l in lines][:6], "wall": round(time.time() - t0, 1)}
             print(pid, "exit", p.returncode, "|", (lines[0][:160] if lines else "OK"), flush=True)
+            # keep the failing input the seed's own property reported (the replay file named in the first VIOLATION line)
+            if not no_write and pid == os.path.basename(d).split("-")[0] and res[pid]["violation"] and not res[pid]["no_failing_input"]:
+                import re, shutil
+                m = re.search(r"replay=(\S+)", lines[0])
+                if m:
+                    src = m.group(1) if os.path.isabs(m.group(1)) else os.path.join(HERE, m.group(1))
+                    if os.path.exists(src):
+                        shutil.copy(src, os.path.join(d, "failing_input.json"))
     finally:
         if use_wt:
             subprocess.run(["git", "-C", "/repo", "worktree", "remove", "--force", target], capture_output=True)
+            import shutil as _sh
+            _sh.rmtree(target + "_out", ignore_errors=True)
         else:
             subprocess.run(["git", "-C", "/repo", "checkout", "--", "."], check=True)
     out = {"tier": tier, "where": "scratch worktree via VERIF_REPO" if use_wt else "/repo (patch applied, then git checkout -- .)", "results": res, "detected_by": sorted(k for k, v in res.items() if v["violation"]),
            "detected_with_failing_input": sorted(k for k, v in res.items() if v["violation"] and not v["no_failing_input"])}
-    json.dump(out, open(os.path.join(d, "eval.json"), "w"), indent=1)
+    if not no_write:
+        json.dump(out, open(os.path.join(d, "eval.json"), "w"), indent=1)
     print("detected by:", out["detected_by"], "| with failing input:", out["detected_with_failing_input"])
 
 
